@@ -83,8 +83,14 @@ Fixpoint run_layers (encap : bool) (b : msg) (ls : list (parser * N)) (layers : 
 
 Fixpoint chained (p : parser) (layers : list layer) : Prop :=
   match layers with [] => True | l :: r => lp l = p /\ chained (lnext l) r end.
+(* what ParseMPLS peeks at behind its own header: the version nibble of the next byte.  A contract may
+   depend on the bytes that follow the header only through this. *)
+Definition contract_p (l : layer) (rest : bytes) : Prop :=
+  forall rest', peek_etype rest' = peek_etype rest -> contract l rest'.
+Lemma robust_p l rest : (forall r, contract l r) -> contract_p l rest.
+Proof. intros H rest' _. apply H. Qed.
 Fixpoint contracts (layers : list layer) (rest : bytes) : Prop :=
-  match layers with [] => True | l :: r => contract l (concat (map lhdr r) ++ rest) /\ contracts r rest end.
+  match layers with [] => True | l :: r => contract_p l (concat (map lhdr r) ++ rest) /\ contracts r rest end.
 Definition last_next (p : parser) (layers : list layer) : parser := last (map lnext layers) p.
 
 Lemma mgetLB_others m b : others_eq m b -> mgetLB m cRhAddrs = mgetLB b cRhAddrs.
@@ -176,7 +182,7 @@ Proof.
     replace (lneeds l && negb encap && negb match mgetLB b cRhAddrs with [] => true | _ :: _ => false end) with false in Hrun.
     2:{ destruct (lneeds l) eqn:E1; [|reflexivity]. destruct encap eqn:E2; [reflexivity|]. rewrite Hneed by reflexivity. reflexivity. }
     subst p. cbn [length Nat.add].
-    destruct (loop_layer (length r + fu) data off encap m b ls l (concat (map lhdr r) ++ rest) Hs Ho Hc Hinv Hneed) as (m1 & E1 & Hinv1).
+    destruct (loop_layer (length r + fu) data off encap m b ls l (concat (map lhdr r) ++ rest) Hs Ho (Hc _ eq_refl) Hinv Hneed) as (m1 & E1 & Hinv1).
     rewrite E1.
     assert (Hlen : length (skipn (N.to_nat off) data) = (length (lhdr l) + length (concat (map lhdr r) ++ rest))%nat)
       by (rewrite Hs, app_length; reflexivity).
@@ -275,7 +281,7 @@ Qed.
 
 Lemma l4_contracts x rest : wf_l4 x = true -> contracts (l4_chain x) rest.
 Proof.
-  destruct x; cbn [wf_l4 l4_chain contracts map concat app]; intros H; try exact I; split; try exact I; rewrite ?app_nil_l.
+  destruct x; cbn [wf_l4 l4_chain contracts map concat app]; intros H; try exact I; split; try exact I; rewrite ?app_nil_l; intros rest' _.
   - apply andb_prop in H. destruct H as [H1 H2]. apply N.ltb_lt in H1. apply N.ltb_lt in H2.
     unfold contract. cbn [mk lp lhdr lasg lnext lneeds]. split; [keys|]. split; [discriminate|].
     assert (L : lenN (enc_l4 (L4TCP sp dp flags)) = 20) by reflexivity. rewrite L. split; [lia|].
@@ -419,11 +425,15 @@ Qed.
 Lemma l3_contracts x next plen rest : wf_l3 x = true -> contracts (l3_chain x next plen) rest.
 Proof.
   destruct x as [h|h]; cbn [wf_l3 l3_chain contracts]; intros H.
-  - split; [apply ip4_layer_contract; exact H|exact I].
+  - split; [apply robust_p; intros r; apply ip4_layer_contract; exact H|exact I].
   - apply andb_prop in H. destruct H as [H Hf]. apply andb_prop in H. destruct H as [Hb Hs].
-    split; [apply ip6_layer_contract; exact Hb|].
-    unfold v6_ext_chain. destruct (i6Srh h) as [s|]; destruct (i6Frag h) as [f|]; cbn [contracts]; repeat split;
-      try apply srh_layer_contract; try apply frag_layer_contract; assumption.
+    split; [apply robust_p; intros r; apply ip6_layer_contract; exact Hb|].
+    unfold v6_ext_chain. destruct (i6Srh h) as [s|]; destruct (i6Frag h) as [f|]; cbn [contracts].
+    + split; [apply robust_p; intros r; apply srh_layer_contract; assumption|].
+      split; [apply robust_p; intros r; apply frag_layer_contract; assumption|exact I].
+    + split; [apply robust_p; intros r; apply srh_layer_contract; assumption|exact I].
+    + split; [apply robust_p; intros r; apply frag_layer_contract; assumption|exact I].
+    + exact I.
 Qed.
 
 Lemma ip4_hdr_lenN h next tl : wf_ip4 h = true -> lenN (ip4_hdr h next tl) = 20.
@@ -490,7 +500,7 @@ Lemma vlan_contracts vs final rest : forallb (fun v => v <? 65536) vs = true -> 
 Proof.
   induction vs as [|v r IH]; intros H Hf; [exact I|]. cbn [forallb] in H. apply andb_prop in H. destruct H as [Hv Hr].
   apply N.ltb_lt in Hv. cbn [vlan_chain contracts]. split; [|apply IH; assumption].
-  apply vlan_layer_contract; [exact Hv|]. destruct r; cbn [head_et]; [exact Hf|lia].
+  apply robust_p; intros r0; apply vlan_layer_contract; [exact Hv|]. destruct r; cbn [head_et]; [exact Hf|lia].
 Qed.
 
 Ltac lookups :=
@@ -596,12 +606,12 @@ Proof.
   repeat match goal with X : (_ <? _) = true |- _ => apply N.ltb_lt in X | X : (_ <=? _) = true |- _ => apply N.leb_le in X end.
   destruct (after_et_small f) as [Ha _].
   unfold front_chain. cbn [contracts]. split.
-  - apply eth_layer_contract; try assumption. destruct (fVlans f); cbn [head_et]; [exact Ha|lia].
+  - apply robust_p; intros r; apply eth_layer_contract; try assumption. destruct (fVlans f); cbn [head_et]; [exact Ha|lia].
   - apply contracts_app. split; [apply vlan_contracts; assumption|].
     unfold mpls_chain. destruct (fMpls f) as [|x ls] eqn:Em; cbn [contracts]; [exact I|]. split; [|exact I].
-    unfold contract. cbn [mpls_layer mk lp lhdr lasg lnext lneeds map concat app].
+    cbn [map concat app]. intros rest' Hp'. unfold contract. cbn [mpls_layer mk lp lhdr lasg lnext lneeds].
     rewrite mpls_lenN. split; [keys|]. split; [discriminate|]. split; [unfold lenN in *; cbn [length] in *; lia|].
-    intros base m _. apply mpls_contract; [discriminate|assumption|exact Hpeek].
+    intros base m _. apply mpls_contract; [discriminate|assumption|rewrite Hp'; exact Hpeek].
 Qed.
 
 Lemma front_run f :
@@ -720,8 +730,8 @@ Lemma tail_contracts f : wf_l3 (fInner f) = true -> wf_l4 (fL4 f) = true -> cont
 Proof.
   intros H3 H4. pose proof (inner_contracts f H3 H4) as C. unfold tail_chain. destruct (fTun f); cbn [contracts].
   - apply l4_contracts. exact H4.
-  - split; [apply gre_layer_contract, l3_etype_small|exact C].
-  - split; [apply gre_layer_contract; lia|]. split; [apply eth_layer_contract; try lia; apply l3_etype_small|exact C].
+  - split; [apply robust_p; intros r; apply gre_layer_contract, l3_etype_small|exact C].
+  - split; [apply robust_p; intros r; apply gre_layer_contract; lia|]. split; [apply robust_p; intros r; apply eth_layer_contract; try lia; apply l3_etype_small|exact C].
   - exact C.
 Qed.
 
@@ -845,7 +855,7 @@ Qed.
 
 Lemma contracts_len layers : forall rest, contracts layers rest -> (length layers <= length (concat (map lhdr layers)))%nat.
 Proof.
-  induction layers as [|l r IH]; intros rest H; [cbn; lia|]. cbn [contracts] in H. destruct H as [(_ & _ & (Hl & _) & _) Hr].
+  induction layers as [|l r IH]; intros rest H; [cbn; lia|]. cbn [contracts] in H. destruct H as [Hc Hr]. destruct (Hc _ eq_refl) as (_ & _ & (Hl & _) & _).
   cbn [length map concat]. rewrite app_length. specialize (IH rest Hr). unfold lenN in Hl. lia.
 Qed.
 
@@ -878,4 +888,116 @@ Proof.
     + destruct (N.eqb_spec cLayerStack k) as [<-|K1].
       * apply mgetLI_some; [exact I1|]. destruct (frame_layers f); [congruence|discriminate].
       * apply Ho; congruence.
+Qed.
+
+(* ---- captures cut short ------------------------------------------------------------------------
+   A capture that ends inside the header of layer j (before that header's minimal length) is dissected
+   exactly like the first j layers alone: their fields, their stack entries and sizes, nothing else. *)
+Lemma run_layers_firstn layers : forall j e b ls r,
+  run_layers e b ls layers = Some r -> exists r', run_layers e b ls (firstn j layers) = Some r'.
+Proof.
+  induction layers as [|l q IH]; intros j e b ls r H; [destruct j; cbn; eauto|].
+  destruct j as [|j]; [cbn; eauto|]. cbn [firstn run_layers] in *.
+  destruct (lneeds l && negb e && negb match mgetLB b cRhAddrs with [] => true | _ :: _ => false end); [discriminate|].
+  eapply IH. exact H.
+Qed.
+
+Lemma chained_firstn layers : forall j p, chained p layers -> chained p (firstn j layers).
+Proof.
+  induction layers as [|l q IH]; intros j p H; [destruct j; exact I|]. destruct j as [|j]; [exact I|].
+  cbn [firstn chained] in *. destruct H as [H1 H2]. split; [exact H1|apply IH; exact H2].
+Qed.
+
+Definition dummy_layer : layer := mk PNone [] [] PNone false.
+
+Lemma last_next_firstn layers : forall j p, chained p layers -> (j < length layers)%nat ->
+  last_next p (firstn j layers) = lp (nth j layers dummy_layer).
+Proof.
+  induction layers as [|l q IH]; intros j p H Hj; [cbn in Hj; lia|].
+  cbn [chained] in H. destruct H as [H1 H2]. destruct j as [|j]; [unfold last_next; cbn; congruence|].
+  cbn [firstn nth length] in *. unfold last_next. cbn [map]. rewrite last_cons. apply IH; [exact H2|lia].
+Qed.
+
+Lemma peek_cons x a c : peek_etype ((x :: a) ++ c) = peek_etype [x].
+Proof. reflexivity. Qed.
+
+Lemma contract_p_peek l r r' : contract_p l r -> peek_etype r' = peek_etype r -> contract_p l r'.
+Proof. intros H E rest' E'. apply H. congruence. Qed.
+
+Lemma contracts_firstn layers rest : forall j cut,
+  contracts layers rest ->
+  peek_etype cut = peek_etype (concat (map lhdr (skipn j layers)) ++ rest) ->
+  contracts (firstn j layers) cut.
+Proof.
+  induction layers as [|l q IH]; intros j cut H Hp; [destruct j; exact I|].
+  destruct j as [|j]; [exact I|]. cbn [firstn contracts skipn] in *. destruct H as [Hc Hq]. split.
+  - eapply contract_p_peek; [exact Hc|].
+    destruct j as [|j]; [cbn [firstn map concat app skipn] in *; exact Hp|].
+    destruct q as [|l2 q2]; [cbn [firstn map concat app skipn] in *; exact Hp|].
+    cbn [firstn map concat]. cbn [contracts] in Hq. destruct Hq as [Hc2 _].
+    destruct (Hc2 _ eq_refl) as (_ & _ & (Hl & _) & _).
+    destruct (lhdr l2) as [|x hx] eqn:E2; [unfold lenN in Hl; cbn in Hl; lia|].
+    rewrite <- !app_assoc. rewrite !peek_cons. reflexivity.
+  - apply IH; assumption.
+Qed.
+
+Lemma firstn_app_len {A} (a c : list A) n : firstn (length a + n) (a ++ c) = a ++ firstn n c.
+Proof. induction a as [|x a IH]; [reflexivity|]. cbn [length Nat.add app firstn]. rewrite IH. reflexivity. Qed.
+
+Lemma peek_firstn c x : (1 <= c)%nat -> peek_etype (firstn c x) = peek_etype x.
+Proof. intros H. destruct c; [lia|]. destruct x; reflexivity. Qed.
+
+Lemma chain_split (layers : list layer) j :
+  concat (map lhdr layers) = concat (map lhdr (firstn j layers)) ++ concat (map lhdr (skipn j layers)).
+Proof. rewrite <- concat_app, <- map_app, firstn_skipn. reflexivity. Qed.
+
+Theorem parse_truncated f j cut : wf_frame f = true -> (j < length (frame_chain f))%nat ->
+  peek_etype cut = peek_etype (concat (map lhdr (skipn j (frame_chain f))) ++ frame_rest f) ->
+  (length cut < min_len (lp (nth j (frame_chain f) dummy_layer)))%nat ->
+  exists m e b ls,
+    run_layers false empty_msg [] (firstn j (frame_chain f)) = Some (e, b, ls) /\
+    parse_packet empty_pcfg empty_msg (concat (map lhdr (firstn j (frame_chain f))) ++ cut) = Ok m /\ Inv m b ls.
+Proof.
+  intros Hwf Hj Hpeek Hshort.
+  destruct (frame_run f Hwf) as (e0 & b0 & Hrun & _).
+  destruct (run_layers_firstn _ j _ _ _ _ Hrun) as ([[e b] ls] & Hrj).
+  destruct (frame_chained f Hwf) as [Hch _]. pose proof (frame_contracts f Hwf) as Hct.
+  pose proof (contracts_firstn _ _ j cut Hct Hpeek) as Hcj.
+  pose proof (chained_firstn _ j _ Hch) as Hchj.
+  pose proof (contracts_len _ _ Hcj) as Hlen.
+  set (pre := firstn j (frame_chain f)) in *.
+  set (data := concat (map lhdr pre) ++ cut).
+  unfold parse_packet. fold data.
+  assert (Hd : (length pre <= length data)%nat) by (unfold data; rewrite app_length; lia).
+  replace (length data + 3)%nat with (length pre + (S (S (S (length data - length pre)))))%nat by lia.
+  assert (Hinv0 : Inv empty_msg empty_msg []) by (split; [reflexivity|split; [reflexivity|apply others_eq_refl]]).
+  destruct (chain pre (S (S (S (length data - length pre)))) data 0 false empty_msg empty_msg [] cut PEthernet e b ls)
+    as (m' & E & Hinv'); try assumption; [reflexivity|lia|].
+  exists m', e, b, ls. split; [exact Hrj|]. split; [|exact Hinv'].
+  rewrite E. unfold pre. rewrite (last_next_firstn _ j _ Hch Hj).
+  set (p := lp (nth j (frame_chain f) dummy_layer)) in *.
+  destruct (Nat.eq_dec (min_len p) 0) as [Hz|Hz]; [lia|].
+  assert (Hp : p <> PNone) by (intros ->; apply Hz; reflexivity).
+  rewrite parse_loop_S by exact Hp.
+  replace (N.of_nat (length data) <? 0 + lenN (concat (map lhdr (firstn j (frame_chain f))))) with false
+    by (unfold data, lenN, pre; rewrite app_length; lia).
+  cbv zeta. cbn [empty_pcfg cPorts cLayers].
+  replace (skipn (N.to_nat (0 + lenN (concat (map lhdr (firstn j (frame_chain f)))))) data) with cut
+    by (unfold data, pre, lenN; rewrite N.add_0_l, Nat2N.id, skipn_exact; reflexivity).
+  rewrite short_stops by exact Hshort. rewrite apply_layer_maps_nil.
+  rewrite Nat.ltb_irrefl. rewrite parse_loop_none. reflexivity.
+Qed.
+
+(* the same, for a capture given as a prefix of the frame's bytes: cut c bytes into header j, 1 <= c < its minimal length *)
+Theorem parse_prefix f j c : wf_frame f = true -> (j < length (frame_chain f))%nat ->
+  (1 <= c < min_len (lp (nth j (frame_chain f) dummy_layer)))%nat ->
+  exists m e b ls,
+    run_layers false empty_msg [] (firstn j (frame_chain f)) = Some (e, b, ls) /\
+    parse_packet empty_pcfg empty_msg
+      (firstn (length (concat (map lhdr (firstn j (frame_chain f)))) + c) (encode_frame f)) = Ok m /\ Inv m b ls.
+Proof.
+  intros Hwf Hj Hc. rewrite encode_frame_chain, (chain_split (frame_chain f) j), <- app_assoc, firstn_app_len.
+  apply parse_truncated; try assumption.
+  - apply peek_firstn. lia.
+  - rewrite firstn_length. lia.
 Qed.
